@@ -39,6 +39,10 @@ type connIDManager struct {
 	removeStatelessResetToken func(protocol.StatelessResetToken)
 	queueControlFrame         func(wire.Frame)
 
+	// [UQUIC] connIDLimit is the active_connection_id_limit we advertised, if it was
+	// set from a QUICSpec. 0 means protocol.MaxActiveConnectionIDs.
+	connIDLimit int
+
 	closed bool
 }
 
@@ -65,7 +69,11 @@ func (h *connIDManager) Add(f *wire.NewConnectionIDFrame) error {
 	if err := h.add(f); err != nil {
 		return err
 	}
-	if len(h.queue) >= protocol.MaxActiveConnectionIDs {
+	limit := protocol.MaxActiveConnectionIDs
+	if h.connIDLimit > 0 {
+		limit = h.connIDLimit // [UQUIC]
+	}
+	if len(h.queue) >= limit {
 		return &qerr.TransportError{ErrorCode: qerr.ConnectionIDLimitError}
 	}
 	return nil
